@@ -117,11 +117,14 @@ class _Subst(ast.NodeTransformer):
     def _comp(self, n):
         names = {x.id for g in n.generators for x in ast.walk(g.target) if isinstance(x, ast.Name)}
         # the first iterable is evaluated in the enclosing scope
+        first = None
         if n.generators:
-            n.generators[0].iter = self.visit(n.generators[0].iter)
+            first = self.visit(n.generators[0].iter)
+            # (the substituted iterable is not visited a second time: an argument that mentions a caller's variable with the
+            # parameter's own name -- `h(names[0:3])` for `def h(names)` -- would be substituted into itself without end)
+            n.generators[0].iter = ast.Constant(value=None)
         hidden = {k: self.m.pop(k) for k in list(self.m) if k in names}
         try:
-            first = n.generators[0].iter if n.generators else None
             out = self.generic_visit(n)
             if first is not None:
                 out.generators[0].iter = first
